@@ -64,7 +64,7 @@ def required(tier):
     b.update({f'amode:{k}': 100 for k in AMODES})
     b.update({f'asize:{k}': 100 for k in ASIZES})
     b.update({'array:partition-mode': 800, 'array:ragged-expected': 100, 'array:uniform-expected': 300,
-              'array:empty-expected': 10, 'array:nonsquare-tiles': 300, 'fil:output-dir-already-populated': 50, 'input-path-rewritten': 200, 'piece-used-again-after-a-frame-was-built': 300})
+              'array:empty-expected': 10, 'array:nonsquare-tiles': 300, 'fil:output-dir-already-populated': 50, 'input-path-rewritten': 200, 'piece-used-again-after-a-frame-was-built': 300, 'blanked-sub-band-coincides-with-a-piece': 100})
     return {'buckets': b, 'counters': {'pieces_compared': 10000, 'frames_built': 1000, 'files_loaded': 500,
                                        'tiles_compared': 5000},
             'checks': 20000, 'nontrivial': 1000}
@@ -423,6 +423,12 @@ def run_file(c, R, stg):
     nch, fch, s, T, tch = c['nch'], c['fch'], c['s'], c['T'], c['tch']
     foff = c['df'] if c['asc'] else -c['df']
     coded = (1 + np.arange(T)[:, None] * nch + np.arange(nch)[None, :]).astype(np.float32)
+    n_pieces_ = (nch - fch) // s + 1 if nch >= fch and s >= 1 else 0
+    if c['kind'] in ('params', 'mean') and c.get('_idx', 0) % 3 == 1 and n_pieces_ >= 2:
+        # a blanked (constant) sub-band that coincides with one piece of the split: it is still a piece, with its own entry
+        i_b = n_pieces_ // 2
+        coded[:, i_b * s:i_b * s + fch] = 7.0
+        R.bucket('blanked-sub-band-coincides-with-a-piece')
     for k in ('kind', 'route', 'fit', 'shift', 'tsel', 'hdr'):
         R.bucket(('api' if k == 'kind' else k) + ':' + c[k])
     R.bucket('orient:asc' if c['asc'] else 'orient:desc')
